@@ -213,6 +213,60 @@ func engineC24(c *vctx) error {
 					fmt.Sprintf("%s snapshots=%d -> %s", fh, n, obs))
 			}
 		}
+		// FindAll with explicit snapshot arguments (ids, prefixes, latest, :subfolder forms, unknown ids)
+		if n > 0 {
+			for q := 0; q < 2; q++ {
+				f := data.SnapshotFilter{}
+				if rng.chance(40) {
+					f.Hosts = subset(hosts, 2, false)
+				}
+				if rng.chance(25) {
+					f.Paths = subset(paths, 1, false)
+				}
+				fTerm := fmt.Sprintf("(mkF %s [] %s None)", c24Strs(f.Hosts), c24Strs(f.Paths))
+				var args, argT []string
+				for k := 1 + rng.intn(5); k > 0; k-- {
+					i := rng.intn(n)
+					full := store.order[i].String()
+					switch rng.intn(10) {
+					case 0, 1:
+						args = append(args, "latest")
+						argT = append(argT, "ALatest")
+					case 2:
+						args = append(args, "latest:sub")
+						argT = append(argT, "ALatestSub")
+					case 3:
+						args = append(args, full+":sub/dir")
+						argT = append(argT, fmt.Sprintf("(AId (Some %s) true)", coqN(uint64(i))))
+					case 4:
+						args = append(args, "ffffffffffffffffffffffffffffffffffffffffffffffffffffffffffffff00")
+						argT = append(argT, "(AId None false)")
+					case 5, 6:
+						args = append(args, full[:10])
+						argT = append(argT, fmt.Sprintf("(AId (Some %s) false)", coqN(uint64(i))))
+					default:
+						args = append(args, full)
+						argT = append(argT, fmt.Sprintf("(AId (Some %s) false)", coqN(uint64(i))))
+					}
+				}
+				var evs []string
+				fa := f
+				fa.Paths = append([]string(nil), f.Paths...)
+				err := fa.FindAll(ctx, store, store, args, func(_ string, sn *data.Snapshot, err error) error {
+					if err != nil || sn == nil {
+						evs = append(evs, "EvErr")
+					} else {
+						evs = append(evs, "(EvSnap "+coqN(uint64(idx[*sn.ID()]))+")")
+					}
+					return nil
+				})
+				if err != nil {
+					evs = append(evs, "(EvSnap 9999%N)")
+				}
+				c.Case("findall-ids", len(args) >= 2, n*3+len(args), fmt.Sprintf("KIds %s %s %s %s", fTerm, listTerm, coqList(argT), coqList(evs)),
+					fmt.Sprintf("hosts=%q paths=%q args=%v -> %v", f.Hosts, f.Paths, argT, evs))
+			}
+		}
 		// grouping
 		for _, o := range [][3]bool{{false, false, false}, {true, false, false}, {false, true, false}, {false, false, true}, {false, true, true}, {true, true, true}} {
 			if rng.chance(40) {
